@@ -9,6 +9,7 @@ import (
 	"fmt"
 	"strings"
 
+	"github.com/vipnode/vipnode/v2/ethnode"
 	"github.com/vipnode/vipnode/v2/internal/verif/vh"
 	"github.com/vipnode/vipnode/v2/internal/verif/vsched"
 	"github.com/vipnode/vipnode/v2/pool"
@@ -273,6 +274,166 @@ func c04Legacy() vh.Unit {
 	}}
 }
 
+// Every correctly signed fresh request is accepted, whatever (valid) shape its parameters have:
+// the verification step must hash exactly what the sender signed.
+func c04ValidShapes() vh.Unit {
+	name := "valid-shapes"
+	cast := vh.StdCast()
+	return vh.Unit{Name: name, Run: func(u *vh.U) {
+		C1, H1, H2, W1 := cast.ByName["C1"], cast.ByName["H1"], cast.ByName["H2"], cast.ByName["W1"]
+		unknown := vh.Identities()[7].NodeID
+		peerInfo := func(id string) ethnode.PeerInfo {
+			pi := vh.DefaultParam("vipnode_update", id).(pool.UpdateRequest).PeerInfo[0]
+			return pi
+		}
+		type shape struct {
+			endpoint string
+			owner    *vh.Ident
+			param    interface{}
+			label    string
+		}
+		var shapes []shape
+		// vipnode_update: every peer list of length 0..3 over {self, H1, H2, unknown id}, in the
+		// current and in the deprecated field, three block numbers
+		alphabet := []string{C1.NodeID, H1.NodeID, H2.NodeID, unknown}
+		names := []string{"self", "H1", "H2", "X"}
+		var lists [][]int
+		var gen func(cur []int)
+		gen = func(cur []int) {
+			lists = append(lists, append([]int{}, cur...))
+			if len(cur) == 3 {
+				return
+			}
+			for i := range alphabet {
+				gen(append(cur, i))
+			}
+		}
+		gen(nil)
+		for _, l := range lists {
+			var req pool.UpdateRequest
+			var lab []string
+			for _, i := range l {
+				req.PeerInfo = append(req.PeerInfo, peerInfo(alphabet[i]))
+				lab = append(lab, names[i])
+			}
+			for _, bn := range []uint64{0, 7, 1<<63 + 5} {
+				r := req
+				r.BlockNumber = bn
+				shapes = append(shapes, shape{"vipnode_update", C1, r, fmt.Sprintf("peers_info=%v block=%d", lab, bn)})
+			}
+			var old pool.UpdateRequest
+			for _, i := range l {
+				old.Peers = append(old.Peers, alphabet[i])
+			}
+			shapes = append(shapes, shape{"vipnode_update", C1, old, fmt.Sprintf("peers=%v", lab)})
+		}
+		for _, num := range []int{0, 1, 3, 100} {
+			for _, kind := range []string{"", "geth", "parity", "besu"} {
+				shapes = append(shapes, shape{"vipnode_peer", C1, pool.PeerRequest{Num: num, Kind: kind}, fmt.Sprintf("num=%d kind=%q", num, kind)})
+				shapes = append(shapes, shape{"vipnode_client", C1, pool.ClientRequest{Kind: kind, NumHosts: num}, fmt.Sprintf("num=%d kind=%q", num, kind)})
+			}
+		}
+		for _, payout := range []string{"", W1.Wallet, strings.ToLower(W1.Wallet)} {
+			for _, uri := range []string{"", "enode://" + H2.NodeID + "@192.0.2.7:30303", "enode://" + H2.NodeID + "@[2001:db8::1]:30303"} {
+				for _, full := range []bool{false, true} {
+					c := vh.DefaultParam("vipnode_connect", "").(pool.ConnectRequest)
+					c.Payout, c.NodeURI, c.NodeInfo.IsFullNode = payout, uri, full
+					shapes = append(shapes, shape{"vipnode_connect", H2, c, fmt.Sprintf("payout=%q uri=%q full=%v", payout, uri, full)})
+				}
+				shapes = append(shapes, shape{"vipnode_host", H2, pool.HostRequest{Kind: "geth", Payout: payout, NodeURI: uri}, fmt.Sprintf("payout=%q uri=%q", payout, uri)})
+			}
+		}
+		for _, node := range []string{C1.NodeID, H1.NodeID, unknown, ""} {
+			shapes = append(shapes, shape{"pool_addNode", W1, node, "node=" + vh.Short(node)})
+		}
+		shapes = append(shapes, shape{"pool_withdraw", W1, nil, ""})
+		for _, prefix := range c04States {
+			for _, sh := range shapes {
+				if u.Expired() {
+					return
+				}
+				vsched.ResetClock(0)
+				pw := vh.NewPoolWorld(vh.PoolConfig{Driver: vh.Memory})
+				for _, e := range prefix {
+					vh.PoolEvent(pw, cast, e)
+				}
+				ctx := vh.CtxWith(pw.Host("conn-" + sh.owner.Name).Service())
+				nonce := vsched.Base().UnixNano() + int64(3600e9) + 9000
+				call := vh.NewCall(sh.endpoint, sh.owner, nonce, sh.param)
+				var err error
+				p := vh.Recover(func() { _, err = call.Invoke(pw, ctx) })
+				u.R.Evaluations++
+				u.R.States++
+				u.R.Transitions++
+				u.R.Traces++
+				u.Observe(fmt.Sprintf("%s refused=%v", sh.endpoint, vh.IsRefused(err)))
+				if p != "" {
+					u.Violate("c04/"+sh.endpoint+"/panic/valid-shape", fmt.Sprintf("state %v, %s: panic: %s", prefix, sh.label, p), nil)
+				} else if vh.IsRefused(err) {
+					u.Violate("c04/"+sh.endpoint+"/valid-request-refused", fmt.Sprintf("state %v: a correctly signed fresh %s (%s) was refused: %v", prefix, sh.endpoint, sh.label, err), nil)
+				}
+			}
+		}
+		u.Sample("vipnode_update with every peer list of length 0..3 over {self, two hosts, an unknown id}; peer/client/connect/host/addNode parameter grids")
+	}}
+}
+
+// Verification is a pure function of the request: concurrent verifications of different requests
+// must not influence each other (each valid request accepted, the altered one refused).
+func c04Concurrent(bound int) vh.Unit {
+	name := "concurrent-verification"
+	cast := vh.StdCast()
+	var res []error
+	var labels []string
+	body := func() {
+		vsched.ResetClock(0)
+		pw := vh.NewPoolWorld(vh.PoolConfig{Driver: vh.Memory})
+		for _, e := range c04States[len(c04States)-1] {
+			vh.PoolEvent(pw, cast, e)
+		}
+		C1, C2, W1 := cast.ByName["C1"], cast.ByName["C2"], cast.ByName["W1"]
+		nonce := vsched.Base().UnixNano() + int64(3600e9) + 9500
+		valid1 := vh.NewCall("vipnode_update", C1, nonce, vh.DefaultParam("vipnode_update", cast.ByName["H1"].NodeID))
+		valid2 := vh.NewCall("vipnode_peer", C2, nonce+1, pool.PeerRequest{Num: 1, Kind: "geth"})
+		valid3 := vh.NewCall("pool_addNode", W1, nonce+2, C2.NodeID)
+		altered := vh.NewCall("vipnode_connect", C2, nonce+3, vh.DefaultParam("vipnode_connect", ""))
+		cr := altered.Param.(pool.ConnectRequest)
+		cr.Payout = cast.ByName["W2"].Wallet // changed after signing
+		altered.Param = cr
+		calls := []vh.Call{valid1, valid2, valid3, altered}
+		labels = []string{"valid update C1", "valid peer C2", "valid addNode W1", "altered connect C2"}
+		res = make([]error, len(calls))
+		var fns []func()
+		for i := range calls {
+			i := i
+			fns = append(fns, func() {
+				_, res[i] = calls[i].Invoke(pw, vh.CtxWith(pw.Host("conn"+fmt.Sprint(i)).Service()))
+			})
+		}
+		vh.Par(labels, fns...)
+	}
+	return vh.Unit{Name: name, Run: func(u *vh.U) {
+		vh.RunDFS(u, vh.DFSSpec{
+			Name: name, Bound: bound,
+			Run:  vsched.Options{YieldFiles: []string{"request.go", "node.go", "address.go"}, Delay: true, Drain: true},
+			Body: body,
+			Obs:  func(s *vsched.Sched) string { return fmt.Sprint(errs(res)) },
+			Check: func(s *vsched.Sched) (string, string) {
+				for i, e := range res {
+					refused := vh.IsRefused(e)
+					if i < 3 && refused {
+						return "c04/concurrent/valid-request-refused", fmt.Sprintf("%s, verified while other requests were being verified, was refused: %v", labels[i], e)
+					}
+					if i == 3 && !refused {
+						return "c04/concurrent/altered-request-accepted", fmt.Sprintf("%s, verified while other requests were being verified, was not refused (err=%v)", labels[i], e)
+					}
+				}
+				return "", ""
+			},
+		})
+	}}
+}
+
 func init() {
 	vh.Register(&vh.Check{
 		ID: "C04", Level: "model_checking",
@@ -287,7 +448,12 @@ func init() {
 			for _, e := range vh.SignedEndpoints {
 				us = append(us, c04Unit(e))
 			}
-			us = append(us, c04Legacy())
+			us = append(us, c04Legacy(), c04ValidShapes())
+			b := 2
+			if tier == "thorough" {
+				b = 3
+			}
+			us = append(us, c04Concurrent(b))
 			return us
 		},
 	})
